@@ -95,6 +95,19 @@ Theorem C14_type_wrong : forall v rt ty p,
 Proof. exact accept_wrong_type. Qed.
 Print Assumptions C14_type_wrong.
 
+(* Whatever reply arrives for a request (any type, any body: truncated, over-long, claiming 2^32-1 names,
+   invalid text ...), a caller that is not handed a value is handed an SFTPError carrying a status code;
+   in particular an undecodable body of a legal type is BAD_MESSAGE, never a bare decode error. *)
+Theorem C14_reply_errors : forall v rt ty p e, accept v rt ty p = Err e -> exists c, e = ESftp c.
+Proof. exact accept_err_is_sftp. Qed.
+Print Assumptions C14_reply_errors.
+
+(* The code before the repair ("report malformed SFTP replies ... as SFTPBadMessage") did leak the
+   decoder's own exception to the caller, e.g. for a 2-byte FXP_ATTRS reply to a STAT request. *)
+Theorem C14_reply_errors_old_refuted : exists v rt ty p, accept_old v rt ty p = Err EDecode.
+Proof. exact accept_old_leaks. Qed.
+Print Assumptions C14_reply_errors_old_refuted.
+
 (* ---- server: one reply per request --------------------------------------------------------- *)
 
 (* For every protocol version, every session state, every sequence of request packets long enough to
